@@ -1211,7 +1211,14 @@ where
     async fn ensure_active_blob_exists(&self, safe: &mut Safe<K>) -> Result<()> {
         if let None = safe.active_blob {
             let next = self.next_blob_name()?;
-            let blob = Blob::open_new(next, self.iodriver.clone(), self.config.blob()).await?;
+            let (iodriver, config) = (self.iodriver.clone(), self.config.blob());
+            // This function is called from user operations (write, delete, try_create_active_blob) whose
+            // futures can be dropped at any await point. BLOB creation (create file, write header, sync)
+            // must not be interrupted in the middle: an empty BLOB file would be left on disk and detected
+            // as corrupted on the next start. So it runs in a separate task that always completes
+            let blob = tokio::spawn(async move { Blob::open_new(next, iodriver, config).await })
+                .await
+                .map_err(|e| anyhow!("BLOB creation task failed: {}", e))??;
             safe.active_blob = Some(Box::new(ASRwLock::new(blob)));
             Ok(())
         } else {
